@@ -23,7 +23,7 @@ Proof. exact decorate_shape. Qed.
 (** the property, for every protocol, outside the two regions where the pinned WIRE side cannot
     carry the call at all ([wire_supported]: non-wrapped replies over plain XmlDocument while
     XmlDocument.serialize hands the list to the serializer; bare requests over HierDictDocument) *)
-Theorem C18_null_eq_wire_partial : forall xfer U p dcs ms key d hs f args kw,
+Theorem C18_null_eq_wire_partial : forall xfer tns U p dcs ms key d hs f args kw,
   decorate_all U dcs = Ok ms ->
   find_method ms key = Some d ->
   null_supported U d -> wire_supported U p d ->
@@ -32,13 +32,13 @@ Theorem C18_null_eq_wire_partial : forall xfer U p dcs ms key d hs f args kw,
   codec_carries xfer U p d (hdr_of hs) f args kw ->
   fun_fits U d (hdr_of hs) f args kw ->
   outcome_rel (fst (null_call U ms key (hdr_of hs) f args kw))
-              (fst (wire_call xfer U p ms key hs f args kw))
+              (fst (wire_call xfer tns U p ms key hs f args kw))
   /\ app_trace (snd (null_call U ms key (hdr_of hs) f args kw)) = ref_trace U d (hdr_of hs) f args kw
-  /\ app_trace (snd (wire_call xfer U p ms key hs f args kw)) = ref_trace U d (hdr_of hs) f args kw.
+  /\ app_trace (snd (wire_call xfer tns U p ms key hs f args kw)) = ref_trace U d (hdr_of hs) f args kw.
 Proof. exact null_eq_wire. Qed.
 
 (** full strength against Soap11: every supported body style, headers included *)
-Theorem C18_null_eq_wire_soap : forall xfer U dcs ms key d hs f args kw,
+Theorem C18_null_eq_wire_soap : forall xfer tns U dcs ms key d hs f args kw,
   decorate_all U dcs = Ok ms -> find_method ms key = Some d ->
   null_supported U d ->
   call_ok (param_names U d) args kw ->
@@ -46,13 +46,13 @@ Theorem C18_null_eq_wire_soap : forall xfer U dcs ms key d hs f args kw,
   codec_carries xfer U PSoap d (hdr_of hs) f args kw ->
   fun_fits U d (hdr_of hs) f args kw ->
   outcome_rel (fst (null_call U ms key (hdr_of hs) f args kw))
-              (fst (wire_call xfer U PSoap ms key hs f args kw))
+              (fst (wire_call xfer tns U PSoap ms key hs f args kw))
   /\ app_trace (snd (null_call U ms key (hdr_of hs) f args kw)) = ref_trace U d (hdr_of hs) f args kw
-  /\ app_trace (snd (wire_call xfer U PSoap ms key hs f args kw)) = ref_trace U d (hdr_of hs) f args kw.
+  /\ app_trace (snd (wire_call xfer tns U PSoap ms key hs f args kw)) = ref_trace U d (hdr_of hs) f args kw.
 Proof. exact null_eq_wire_soap. Qed.
 
 (** full strength against XmlDocument as soon as its serialize() takes ctx.out_object[0] *)
-Theorem C18_null_eq_wire_xml_when_first : forall xfer U dcs ms key d f args kw,
+Theorem C18_null_eq_wire_xml_when_first : forall xfer tns U dcs ms key d f args kw,
   xml_nonwrapped = NWFirst ->
   decorate_all U dcs = Ok ms -> find_method ms key = Some d ->
   null_supported U d ->
@@ -60,9 +60,9 @@ Theorem C18_null_eq_wire_xml_when_first : forall xfer U dcs ms key d f args kw,
   codec_carries xfer U PXml d None f args kw ->
   fun_fits U d None f args kw ->
   outcome_rel (fst (null_call U ms key None f args kw))
-              (fst (wire_call xfer U PXml ms key [] f args kw))
+              (fst (wire_call xfer tns U PXml ms key [] f args kw))
   /\ app_trace (snd (null_call U ms key None f args kw)) = ref_trace U d None f args kw
-  /\ app_trace (snd (wire_call xfer U PXml ms key [] f args kw)) = ref_trace U d None f args kw.
+  /\ app_trace (snd (wire_call xfer tns U PXml ms key [] f args kw)) = ref_trace U d None f args kw.
 Proof. exact null_eq_wire_xml_when_first. Qed.
 
 (** the region excluded for the dict-document protocols is a real disagreement (known finding) *)
@@ -70,7 +70,7 @@ Theorem C18_hier_bare_request_refuted :
   exists U dcs ms key d args kw,
     decorate_all U dcs = Ok ms /\ find_method ms key = Some d /\ null_supported U d /\
     call_ok (param_names U d) args kw /\
-    forall f, ~ In (EvUser None (delivered U d args kw)) (snd (wire_call xfer_id U PHier ms key [] f args kw))
+    forall f, ~ In (EvUser None (delivered U d args kw)) (snd (wire_call xfer_id [117] U PHier ms key [] f args kw))
               /\ In (EvUser None (delivered U d args kw)) (snd (null_call U ms key None f args kw)).
 Proof. exact hier_bare_request_refuted. Qed.
 
@@ -82,7 +82,7 @@ Theorem C18_kw_eq_pos : forall U dcs ms key d h f args kw,
 Proof. exact kw_eq_pos. Qed.
 
 (** an Ignored return is delivered to the direct caller and sent as empty over the wire *)
-Theorem C18_ignored : forall xfer U p dcs ms key d hs f args kw pl,
+Theorem C18_ignored : forall xfer tns U p dcs ms key d hs f args kw pl,
   decorate_all U dcs = Ok ms ->
   find_method ms key = Some d ->
   null_supported U d -> wire_supported U p d ->
@@ -92,7 +92,7 @@ Theorem C18_ignored : forall xfer U p dcs ms key d hs f args kw pl,
   (forall r, client_request U d args kw = Ok r -> xfer p (md_in d) r = Ok r) ->
   (forall m, srv_response U p d (out_object_of d (PIgnored pl)) = Ok m -> xfer p (md_out d) m = Ok m) ->
   fst (null_call U ms key (hdr_of hs) f args kw) = Returned (PIgnored pl)
-  /\ fst (wire_call xfer U p ms key hs f args kw) = Returned (empty_result U d).
+  /\ fst (wire_call xfer tns U p ms key hs f args kw) = Returned (empty_result U d).
 Proof. exact ignored_direct_and_empty_on_wire. Qed.
 
 (** NullServer(ostr=True) returns the response the wire server writes, Ignored included *)
@@ -111,11 +111,13 @@ Theorem C18_ostr_is_the_wire_response : forall U p dcs ms key d h f args kw x,
     end.
 Proof. exact ostr_is_the_wire_response. Qed.
 
-(** an unknown method name is the same Client.ResourceNotFound fault on both paths *)
-Theorem C18_unknown_method : forall xfer U p ms key hs h f args kw,
+(** an unknown method name is a Client.ResourceNotFound fault on both paths (the wire names the
+    resource by its qualified name) *)
+Theorem C18_unknown_method : forall xfer tns U p ms key hs h f args kw,
   find_method ms key = None ->
-  null_call U ms key h f args kw = (Raised (resource_not_found key), [])
-  /\ wire_call xfer U p ms key hs f args kw = (Raised (resource_not_found key), []).
+  fst (null_call U ms key h f args kw) = Raised (resource_not_found key)
+  /\ fst (wire_call xfer tns U p ms key hs f args kw) = Raised (resource_not_found (qname tns key))
+  /\ snd (null_call U ms key h f args kw) = [].
 Proof. exact unknown_method_same_fault. Qed.
 
 (** outside conformance: more positional arguments than parameters is an IndexError in NullServer *)
@@ -175,7 +177,7 @@ Example C18_ex_null_eq_wire :
   /\ hdr_ok PSoap d hs /\ codec_carries xfer_id U_inh PSoap d (hdr_of hs) ex_f args kw
   /\ fun_fits U_inh d (hdr_of hs) ex_f args kw
   /\ fst (null_call U_inh ex_ms [119] (hdr_of hs) ex_f args kw) = Returned (PTuple [VLeaf (LInt 3); VLeaf (LText [120])])
-  /\ fst (wire_call xfer_id U_inh PSoap ex_ms [119] hs ex_f args kw) = Returned (PTuple [VLeaf (LInt 3); VLeaf (LText [120])])
+  /\ fst (wire_call xfer_id [117] U_inh PSoap ex_ms [119] hs ex_f args kw) = Returned (PTuple [VLeaf (LInt 3); VLeaf (LText [120])])
   /\ ref_trace U_inh d (hdr_of hs) ex_f args kw =
        [EvFire MethodCall;
         EvUser (Some (HOne (VObj 0%nat [VLeaf (LInt 1); VNone]))) [PVal (VLeaf (LInt 3)); PVal (VLeaf (LText [120]))];
@@ -197,7 +199,7 @@ Example C18_ex_bare_inherited_and_kw :
   /\ delivered U_inh d_bd args kw = [PVal (VObj 1%nat [VLeaf (LInt 1); VNone; VLeaf (LBool true)])]
   /\ null_call U_inh ex_ms [98; 100] None ex_f args kw
      = null_call U_inh ex_ms [98; 100] None ex_f [VLeaf (LInt 1); VNone; VLeaf (LBool true)] []
-  /\ fst (wire_call xfer_id U_inh PSoap ex_ms [98; 100] [] ex_f args kw)
+  /\ fst (wire_call xfer_id [117] U_inh PSoap ex_ms [98; 100] [] ex_f args kw)
      = fst (null_call U_inh ex_ms [98; 100] None ex_f args kw).
 Proof.
   cbv zeta. repeat split; try reflexivity.
@@ -208,8 +210,8 @@ Qed.
 Example C18_ex_ignored_and_ostr :
   let fi : ufun := fun _ _ => URet (PIgnored (VLeaf (LText [120]))) in
   fst (null_call U_inh ex_ms [119] None fi [VLeaf (LInt 3)] []) = Returned (PIgnored (VLeaf (LText [120])))
-  /\ fst (wire_call xfer_id U_inh PXml ex_ms [119] [] fi [VLeaf (LInt 3)] []) = Returned (PTuple [VNone; VNone])
-  /\ fst (wire_call xfer_id U_inh PHier ex_ms [111] [] fi [VLeaf (LInt 3)] []) = Returned (PVal VNone)
+  /\ fst (wire_call xfer_id [117] U_inh PXml ex_ms [119] [] fi [VLeaf (LInt 3)] []) = Returned (PTuple [VNone; VNone])
+  /\ fst (wire_call xfer_id [117] U_inh PHier ex_ms [111] [] fi [VLeaf (LInt 3)] []) = Returned (PVal VNone)
   /\ fst (null_call_ostr U_inh PSoap ex_ms [119] None fi [VLeaf (LInt 3)] []) = ReturnedDoc (RWrap [VNone; VNone])
   /\ fst (null_call_ostr U_inh PHier ex_ms [111] None ex_f [VLeaf (LInt 3)] []) = ReturnedDoc (RBare (VLeaf (LInt 3))).
 Proof. vm_compute. repeat split; reflexivity. Qed.
